@@ -409,7 +409,9 @@ PROPS["C09"] = dict(
          "reads later; ROUTER frame-by-frame send with the last frame's send() dropped; REQ send/recv and REP recv with the peer acting later; a "
          "fifth of the cases with SNDTIMEO/RCVTIMEO 40 ms (internal cancellation). Afterwards normal traffic continues and the C01/C02 oracle "
          "over the whole frame stream checks nothing lost, duplicated or torn, the cancelled message is all-or-nothing, and the next valid calls "
-         "succeed. distinct = (socket, op, transport, n, delay, timeout); evidence lists the cancellation points reached.",
+         "succeed. (drain) backlogs of 300-600 messages on PULL/SUB/DEALER/ROUTER over tcp/ipc/inproc drained with poll-once-and-drop "
+         "(every receive future dropped at its first Pending, 50..1000 receives inside one task poll so that the task's cooperative budget "
+         "runs out mid-drain): the stream must stay complete and in order. distinct = (socket, op, transport, n, delay, timeout); evidence lists the cancellation points reached.",
     assumptions=["poll counts depend on scheduling; the set of cancellation points reached per (socket, op) is reported as measured",
                  "DEALER egress loss/reorder is recorded under C01 and not re-judged here"],
     shards=lambda tier, seed: sharded("c09", _n(tier, 14, 16), _n(tier, 600, 3000)),
